@@ -183,8 +183,24 @@ def _gen_case(rng, flavor=None, size=None):
                 copy=rng.random() < 0.2, ops=ops)
 
 
+OID_BASES = [0, 0, 0, 0xfffe, 0xffff, 2 ** 32 + 5, 0x00ff00ff00fe, 0x7fffffffffffff00, 2 ** 63 + 0xfd]
+
+
+def add_construction(c, rng):
+    """construction paths: blob directory layout (pre-existing directory with a marker), the storage built by
+    ZODB.config from text, non-default DB options, oids with 0xff / 0x00 bytes and beyond 2^16 / 2^32 / 2^63"""
+    c['layout'] = rng.choice([None, None, 'lawn', 'bushy'])
+    c['cfg'] = rng.random() < 0.3
+    c['oid_base'] = rng.choice(OID_BASES)
+    if c.get('level') == 'db':
+        c['dbo'] = rng.choice([None, None, dict(pool_size=1, cache_size=1, historical_pool_size=1),
+                               dict(large_record_size=10, cache_size=3, historical_cache_size=1),
+                               dict(pool_size=2, cache_size_bytes=200, historical_timeout=1)])
+
+
 def gen_case(rng, flavor=None, size=None):
     c = _gen_case(rng, flavor, size)
+    add_construction(c, rng)
     if c['flavor'] == 'fs':
         # a record-transforming wrapper (hexstorage) between the DB and the FileStorage
         c['hex'] = rng.random() < 0.3
@@ -259,8 +275,11 @@ def run_case(case, root):
             problems.append((sig, what))
 
     with clock.scripted():
+        import warnings
+        warnings.simplefilter('ignore')
         env = Env(os.path.join(root, 'db'), flavor, keep_old=case.get('keep_old', False),
-                  pack_gc=case.get('gc', True), hex=bool(case.get('hex')))
+                  pack_gc=case.get('gc', True), hex=bool(case.get('hex')), layout=case.get('layout'),
+                  via_config=bool(case.get('cfg')), oid_base=case.get('oid_base', 0), db_opts=case.get('dbo'))
         try:
             db = env.open_db()
             tm0 = transaction.TransactionManager()
